@@ -1,7 +1,305 @@
-use crate::direct::CaseOut;
+//! C20: reply helpers address exactly the requester.
+use crate::direct::{guarded, hash_of, sweep, CaseOut};
+use crate::direct2::*;
 use crate::explore::Caps;
 use crate::families::Tier;
+use crate::mqtt_ref::{self as mr, CPacket, PVal, Prop, SPacket};
 use crate::report::FamilyReport;
-use serde_json::Value;
-pub fn run(_tier: Tier, _caps: &Caps) -> Vec<FamilyReport> { vec![] }
-pub fn replay(_name: &str, _case: &Value) -> Option<CaseOut> { None }
+use crate::world::Res;
+use minimq::{Property, Publication, QoS};
+use serde::{Deserialize, Serialize};
+use serde_json::{json, Value};
+
+fn flag(viol: &mut Vec<(String, String)>, rule: &str, ctx: &str, detail: String) {
+    viol.push((format!("C20:{}:{}", rule, ctx), detail));
+}
+
+#[derive(Clone, Debug, Serialize, Deserialize)]
+pub struct Case {
+    /// None = no response topic in the request
+    pub topic_len: Option<usize>,
+    pub corr_len: Option<usize>,
+    /// 0 first, 1 last, 2 between user properties, 3 correlation data before the response topic
+    pub position: u8,
+    pub in_qos: u8,
+    /// user properties attached to the reply after reply()/publication()
+    pub add_user_props: u8,
+    /// None = borrowed reply(); Some(k) = reply_owned with capacity pair k
+    pub owned: Option<usize>,
+}
+
+const CAPS: [(usize, usize); 7] = [(1, 1), (2, 1), (8, 4), (127, 8), (128, 128), (300, 0), (65535, 65535)];
+
+fn topic_of(n: usize) -> String {
+    // mixes one-, two- and three-byte characters at the front when there is room
+    let mut s = String::new();
+    if n >= 6 {
+        s.push_str("r\u{e9}\u{20ac}");
+    }
+    while s.len() < n {
+        s.push(if s.len() % 5 == 4 { '/' } else { 'q' });
+    }
+    s
+}
+
+fn corr_of(n: usize) -> Vec<u8> {
+    (0..n).map(|i| ((i * 7 + 3) % 256) as u8).collect()
+}
+
+enum Owned {
+    None,
+    Some(String, Option<Vec<u8>>, Vec<u8>),
+    Err(String),
+}
+
+macro_rules! owned_reply {
+    ($bench:expr, $conn:expr, $id:expr, $t:expr, $c:expr, $users:expr) => {{
+        // first step: copy the target out of the borrowed message
+        let target = {
+            let m = match $bench.run($conn.poll(), $id) {
+                Some(Ok(Some(m))) => m,
+                _ => panic!("machinery: request was not delivered"),
+            };
+            m.reply_owned::<$t, $c>()
+        };
+        match target {
+            Ok(None) => Owned::None,
+            Err(e) => Owned::Err(format!("{:?}", e)),
+            Ok(Some(target)) => {
+                // flush the acknowledgement of the request first so that only the reply follows
+                let _ = $bench.run($conn.drive(), $id);
+                let before = $bench.written($id).len();
+                let topic = target.topic().to_string();
+                let corr = target.correlation_data().map(|c| c.to_vec());
+                let mut publication = target.publication(&b"pong"[..]);
+                if !$users.is_empty() {
+                    publication = publication.properties($users);
+                }
+                let r = $bench.run($conn.publish(publication), $id);
+                if !matches!(r, Some(Ok(_))) {
+                    Owned::Err(format!("publish failed: {:?}", r.map(|r| r.map(|_| ()).map_err(|e| Res::from_pub(&e)))))
+                } else {
+                    Owned::Some(topic, corr, $bench.written($id)[before..].to_vec())
+                }
+            }
+        }
+    }};
+}
+
+pub fn eval(c: &Case) -> CaseOut {
+    guarded("C20", || {
+        let mut viol = Vec::new();
+        let topic = c.topic_len.map(topic_of);
+        let corr = c.corr_len.map(corr_of);
+        let up = |k: &str| Prop { id: 0x26, val: PVal::Pair(k.as_bytes().to_vec(), b"v".to_vec()) };
+        let rt = topic.as_ref().map(|t| Prop { id: 0x08, val: PVal::Str(t.as_bytes().to_vec()) });
+        let cd = corr.as_ref().map(|d| Prop { id: 0x09, val: PVal::Bin(d.clone()) });
+        let mut props: Vec<Prop> = Vec::new();
+        match c.position {
+            0 => {
+                props.extend(rt.clone());
+                props.extend(cd.clone());
+                props.push(up("a"));
+            }
+            1 => {
+                props.push(up("a"));
+                props.push(Prop { id: 0x03, val: PVal::Str(b"ct".to_vec()) });
+                props.extend(cd.clone());
+                props.extend(rt.clone());
+            }
+            2 => {
+                props.push(up("a"));
+                props.extend(rt.clone());
+                props.push(up("b"));
+                props.extend(cd.clone());
+                props.push(up("c"));
+            }
+            _ => {
+                props.extend(cd.clone());
+                props.extend(rt.clone());
+            }
+        }
+        let request = SPacket::Publish {
+            dup: false,
+            qos: c.in_qos,
+            retain: false,
+            topic: b"req".to_vec(),
+            pid: if c.in_qos > 0 { Some(9) } else { None },
+            props,
+            payload: b"ping".to_vec(),
+        }
+        .encode();
+        let rx = request.len() + 16;
+        let tx = c.topic_len.unwrap_or(0) + c.corr_len.unwrap_or(0) + 128;
+        let user_ref: Vec<Prop> = (0..c.add_user_props).map(|i| up(&format!("u{}", i))).collect();
+        let users: Vec<Property<'_>> = props_of(&user_ref);
+        let spec = Spec::plain(rx, tx);
+        // the requester-side session
+        let out = with_session(&spec, |bench, s| {
+            let Conn::Ok(mut conn, id) = connect(bench, s, &connack(false, vec![])) else { return None };
+            bench.push(id, &request);
+            Some(match c.owned {
+                None => {
+                    // borrowed reply: the publication borrows the inbound message, so it is sent through a
+                    // second session (the only way the borrow checker allows)
+                    let m = match bench.run(conn.poll(), id) {
+                        Some(Ok(Some(m))) => m,
+                        _ => panic!("machinery: request was not delivered"),
+                    };
+                    match m.reply(&b"pong"[..]) {
+                        None => Owned::None,
+                        Some(mut publication) => {
+                            if !users.is_empty() {
+                                publication = publication.properties(&users);
+                            }
+                            let spec_b = Spec::plain(64, tx);
+                            let sent = with_session(&spec_b, |bench_b, sb| {
+                                let Conn::Ok(mut cb, idb) = connect(bench_b, sb, &connack(false, vec![])) else { return None };
+                                let before = bench_b.written(idb).len();
+                                let r = bench_b.run(cb.publish(publication.qos(QoS::AtMostOnce)), idb);
+                                if !matches!(r, Some(Ok(_))) {
+                                    return None;
+                                }
+                                Some(bench_b.written(idb)[before..].to_vec())
+                            });
+                            match sent {
+                                Built::Ran(Some(w)) => Owned::Some(m.response_topic().unwrap_or("").to_string(), m.correlation_data().map(|d| d.to_vec()), w),
+                                _ => Owned::Err("publishing the borrowed reply failed".into()),
+                            }
+                        }
+                    }
+                }
+                Some(0) => owned_reply!(bench, conn, id, 1, 1, &users),
+                Some(1) => owned_reply!(bench, conn, id, 2, 1, &users),
+                Some(2) => owned_reply!(bench, conn, id, 8, 4, &users),
+                Some(3) => owned_reply!(bench, conn, id, 127, 8, &users),
+                Some(4) => owned_reply!(bench, conn, id, 128, 128, &users),
+                Some(5) => owned_reply!(bench, conn, id, 300, 0, &users),
+                Some(_) => owned_reply!(bench, conn, id, 65535, 65535, &users),
+            })
+        });
+        let Built::Ran(Some(result)) = out else { panic!("machinery: setup failed") };
+        let kind = if c.owned.is_some() { "owned" } else { "borrowed" };
+        let fits = match c.owned {
+            None => true,
+            Some(k) => {
+                let (tc, cc) = CAPS[k.min(CAPS.len() - 1)];
+                c.topic_len.unwrap_or(0) <= tc && c.corr_len.unwrap_or(0) <= cc
+            }
+        };
+        let class;
+        match (&topic, result) {
+            (None, Owned::None) => class = 1,
+            (None, Owned::Some(t, _, _)) => {
+                class = 2;
+                flag(&mut viol, "reply-without-response-topic", kind, format!("the request has no response topic but a reply to {:?} was offered", t));
+            }
+            (None, Owned::Err(e)) => {
+                class = 3;
+                flag(&mut viol, "error-without-response-topic", kind, format!("the request has no response topic but the helper failed with {}", e));
+            }
+            (Some(_), Owned::None) => {
+                class = 4;
+                flag(&mut viol, "no-reply-offered", kind, format!("the request carries a response topic of {} bytes but no reply was offered ({:?})", c.topic_len.unwrap(), c));
+            }
+            (Some(_), Owned::Err(e)) => {
+                class = 5;
+                if fits {
+                    flag(&mut viol, "fitting-target-refused", kind, format!("target fits the requested capacity but the helper failed: {} ({:?})", e, c));
+                } else if e != "BufferTooSmall" {
+                    flag(&mut viol, "wrong-error", kind, format!("capacity too small reported as {}", e));
+                }
+            }
+            (Some(want_topic), Owned::Some(t, cdata, written)) => {
+                class = 6;
+                if !fits {
+                    flag(&mut viol, "truncated-instead-of-error", kind, format!("target does not fit capacity {:?} but a reply to a {}-byte topic with {:?} correlation bytes was produced", c.owned.map(|k| CAPS[k.min(CAPS.len() - 1)]), t.len(), cdata.as_ref().map(|d| d.len())));
+                }
+                if &t != want_topic || cdata != corr {
+                    flag(&mut viol, "target-differs", kind, format!("helper reports topic {} bytes / correlation {:?} bytes, request had {} / {:?}", t.len(), cdata.as_ref().map(|d| d.len()), want_topic.len(), corr.as_ref().map(|d| d.len())));
+                }
+                match mr::decode_client(&written) {
+                    Ok((CPacket::Publish(pp), n)) if n == written.len() => {
+                        if pp.topic != want_topic.as_bytes() {
+                            flag(&mut viol, "reply-topic-differs", kind, format!("reply goes to a {}-byte topic, response topic has {} bytes", pp.topic.len(), want_topic.len()));
+                        }
+                        let got_cd: Vec<&Prop> = pp.props.iter().filter(|p| p.id == 0x09).collect();
+                        let want_cd: Vec<Prop> = cd.iter().cloned().collect();
+                        if got_cd.len() != want_cd.len() || got_cd.iter().zip(want_cd.iter()).any(|(a, b)| *a != b) {
+                            flag(&mut viol, "reply-correlation-differs", kind, format!("reply carries correlation data {:?}, request {:?}", got_cd.iter().map(|p| format!("{:?}", p).len()).collect::<Vec<_>>(), corr.as_ref().map(|d| d.len())));
+                        }
+                        let got_users: Vec<Prop> = pp.props.iter().filter(|p| p.id == 0x26).cloned().collect();
+                        if got_users != user_ref {
+                            flag(&mut viol, "reply-user-properties-differ", kind, format!("reply carries user properties {:?}, added {:?}", got_users, user_ref));
+                        }
+                        if pp.props.iter().any(|p| p.id != 0x09 && p.id != 0x26) {
+                            flag(&mut viol, "reply-extra-properties", kind, format!("reply carries {:?}", pp.props));
+                        }
+                        if pp.payload != b"pong" {
+                            flag(&mut viol, "reply-payload-differs", kind, mr::hex(&pp.payload));
+                        }
+                    }
+                    other => flag(&mut viol, "reply-undecodable", kind, format!("{:?}", other.map(|x| x.0.name()))),
+                }
+            }
+        }
+        CaseOut { class: hash_of(&(class, c.owned.is_some(), fits, c.corr_len.is_some())), viol }
+    })
+}
+
+fn cases(tier: Tier) -> Vec<Case> {
+    let mut v = Vec::new();
+    let topics: Vec<Option<usize>> = vec![None, Some(1), Some(2), Some(127), Some(128), Some(65535)];
+    let corrs: Vec<Option<usize>> = vec![None, Some(0), Some(1), Some(128), Some(256), Some(65535)];
+    for t in &topics {
+        for cl in &corrs {
+            for position in 0..4u8 {
+                for add_user_props in [0u8, 2] {
+                    for in_qos in [0u8, 1] {
+                        if tier == Tier::Quick && in_qos == 1 && (t.unwrap_or(0) > 200 || cl.unwrap_or(0) > 200) {
+                            continue;
+                        }
+                        v.push(Case { topic_len: *t, corr_len: *cl, position, in_qos, add_user_props, owned: None });
+                    }
+                }
+            }
+        }
+    }
+    for (k, (tc, cc)) in CAPS.iter().enumerate() {
+        let mut tl: Vec<Option<usize>> = vec![None, Some(tc.saturating_sub(1).max(1)), Some(*tc)];
+        if *tc < 65535 {
+            tl.push(Some(tc + 1));
+        }
+        let mut cls: Vec<Option<usize>> = vec![None, Some(cc.saturating_sub(1)), Some(*cc)];
+        if *cc < 65535 {
+            cls.push(Some(cc + 1));
+        }
+        for t in &tl {
+            for cl in &cls {
+                for add_user_props in [0u8, 1] {
+                    for position in [0u8, 2] {
+                        v.push(Case { topic_len: *t, corr_len: *cl, position, in_qos: 1, add_user_props, owned: Some(k) });
+                    }
+                }
+            }
+        }
+    }
+    v
+}
+
+pub fn run(tier: Tier, caps: &Caps) -> Vec<FamilyReport> {
+    let cs = cases(tier);
+    vec![sweep(
+        "C20-reply-and-owned-response-target",
+        "C20",
+        cs.len() as u64,
+        caps,
+        json!({"cases": cs.len(), "dimensions": "response topic {absent, 1, 2, 127, 128, 65535 bytes, multi-byte characters} x correlation data {absent, 0, 1, 128, 256 (all byte values), 65535 bytes} x position among other properties {first, last, between user properties, correlation first} x user properties added to the reply {0, 2} x inbound QoS; borrowed reply() published through a second real session; reply_owned::<T,C>() for 7 capacity pairs with topic and correlation lengths T-1, T, T+1 / C-1, C, C+1, published through the same session; reply decoded by the reference decoder"}),
+        &|i| eval(&cs[i as usize]),
+        &|i| serde_json::to_value(&cs[i as usize]).unwrap(),
+    )]
+}
+
+pub fn replay(_name: &str, case: &Value) -> Option<CaseOut> {
+    Some(eval(&serde_json::from_value(case.clone()).ok()?))
+}
